@@ -3,7 +3,6 @@ import MythVerif.Proofs.WsQueueTsoBnd
 namespace MythVerif.WsqTso
 open MythVerif.Wsq
 
-set_option maxHeartbeats 4000000 in
 theorem bT_tq0 (s s' : St) (p : Pid) : Inv s → Inv s' → Bnd s → s.tpc p = .tq0 → stepT s p = some s' → Bnd s' := by
   intro h h' hb hpc hs
   have hcfg := h.cfg
@@ -27,7 +26,6 @@ theorem bT_tq0 (s s' : St) (p : Pid) : Inv s → Inv s' → Bnd s → s.tpc p = 
       (try simp only [upd_apply, applySto] at hold ⊢)
       first | assumption | (intros; contradiction) | (intro q; if hq : q = p then (subst hq; simp only [if_true]; intros; contradiction) else (simp only [if_neg hq]; exact hold q)) | grind [thiefLocked, mayBuf, notTrans, thiefFlight, popWin, rcOff_bnd, Rc1Shape, Rc2Shape, RcPre, RcShape, InsShape, Pu2Shape, CarryShape] | (intro q; by_cases hqp : q = p <;> simp [hqp] <;> grind [thiefLocked, mayBuf, notTrans, thiefFlight, popWin, rcOff_bnd, Rc1Shape, Rc2Shape, RcPre, RcShape, InsShape, Pu2Shape, CarryShape]) | skip)))
 
-set_option maxHeartbeats 4000000 in
 theorem bT_tq1 (s s' : St) (p : Pid) (t) : Inv s → Inv s' → Bnd s → s.tpc p = .tq1 t → stepT s p = some s' → Bnd s' := by
   intro h h' hb hpc hs
   have hcfg := h.cfg
@@ -51,7 +49,6 @@ theorem bT_tq1 (s s' : St) (p : Pid) (t) : Inv s → Inv s' → Bnd s → s.tpc 
       (try simp only [upd_apply, applySto] at hold ⊢)
       first | assumption | (intros; contradiction) | (intro q; if hq : q = p then (subst hq; simp only [if_true]; intros; contradiction) else (simp only [if_neg hq]; exact hold q)) | grind [thiefLocked, mayBuf, notTrans, thiefFlight, popWin, rcOff_bnd, Rc1Shape, Rc2Shape, RcPre, RcShape, InsShape, Pu2Shape, CarryShape] | (intro q; by_cases hqp : q = p <;> simp [hqp] <;> grind [thiefLocked, mayBuf, notTrans, thiefFlight, popWin, rcOff_bnd, Rc1Shape, Rc2Shape, RcPre, RcShape, InsShape, Pu2Shape, CarryShape]) | skip)))
 
-set_option maxHeartbeats 4000000 in
 theorem bT_tkl (s s' : St) (p : Pid) : Inv s → Inv s' → Bnd s → s.tpc p = .tkl → stepT s p = some s' → Bnd s' := by
   intro h h' hb hpc hs
   have hcfg := h.cfg
@@ -75,7 +72,6 @@ theorem bT_tkl (s s' : St) (p : Pid) : Inv s → Inv s' → Bnd s → s.tpc p = 
       (try simp only [upd_apply, applySto] at hold ⊢)
       first | assumption | (intros; contradiction) | (intro q; if hq : q = p then (subst hq; simp only [if_true]; intros; contradiction) else (simp only [if_neg hq]; exact hold q)) | grind [thiefLocked, mayBuf, notTrans, thiefFlight, popWin, rcOff_bnd, Rc1Shape, Rc2Shape, RcPre, RcShape, InsShape, Pu2Shape, CarryShape] | (intro q; by_cases hqp : q = p <;> simp [hqp] <;> grind [thiefLocked, mayBuf, notTrans, thiefFlight, popWin, rcOff_bnd, Rc1Shape, Rc2Shape, RcPre, RcShape, InsShape, Pu2Shape, CarryShape]) | skip)))
 
-set_option maxHeartbeats 4000000 in
 theorem bT_tk1 (s s' : St) (p : Pid) : Inv s → Inv s' → Bnd s → s.tpc p = .tk1 → stepT s p = some s' → Bnd s' := by
   intro h h' hb hpc hs
   have hcfg := h.cfg
@@ -99,7 +95,6 @@ theorem bT_tk1 (s s' : St) (p : Pid) : Inv s → Inv s' → Bnd s → s.tpc p = 
       (try simp only [upd_apply, applySto] at hold ⊢)
       first | assumption | (intros; contradiction) | (intro q; if hq : q = p then (subst hq; simp only [if_true]; intros; contradiction) else (simp only [if_neg hq]; exact hold q)) | grind [thiefLocked, mayBuf, notTrans, thiefFlight, popWin, rcOff_bnd, Rc1Shape, Rc2Shape, RcPre, RcShape, InsShape, Pu2Shape, CarryShape] | (intro q; by_cases hqp : q = p <;> simp [hqp] <;> grind [thiefLocked, mayBuf, notTrans, thiefFlight, popWin, rcOff_bnd, Rc1Shape, Rc2Shape, RcPre, RcShape, InsShape, Pu2Shape, CarryShape]) | skip)))
 
-set_option maxHeartbeats 4000000 in
 theorem bT_tkf (s s' : St) (p : Pid) (b) : Inv s → Inv s' → Bnd s → s.tpc p = .tkf b → stepT s p = some s' → Bnd s' := by
   intro h h' hb hpc hs
   have hcfg := h.cfg
@@ -123,7 +118,6 @@ theorem bT_tkf (s s' : St) (p : Pid) (b) : Inv s → Inv s' → Bnd s → s.tpc 
       (try simp only [upd_apply, applySto] at hold ⊢)
       first | assumption | (intros; contradiction) | (intro q; if hq : q = p then (subst hq; simp only [if_true]; intros; contradiction) else (simp only [if_neg hq]; exact hold q)) | grind [thiefLocked, mayBuf, notTrans, thiefFlight, popWin, rcOff_bnd, Rc1Shape, Rc2Shape, RcPre, RcShape, InsShape, Pu2Shape, CarryShape] | (intro q; by_cases hqp : q = p <;> simp [hqp] <;> grind [thiefLocked, mayBuf, notTrans, thiefFlight, popWin, rcOff_bnd, Rc1Shape, Rc2Shape, RcPre, RcShape, InsShape, Pu2Shape, CarryShape]) | skip)))
 
-set_option maxHeartbeats 4000000 in
 theorem bT_tk2 (s s' : St) (p : Pid) (b) : Inv s → Inv s' → Bnd s → s.tpc p = .tk2 b → stepT s p = some s' → Bnd s' := by
   intro h h' hb hpc hs
   have hcfg := h.cfg
